@@ -30,6 +30,8 @@ sys.path.insert(0, os.path.dirname(os.path.abspath(__file__)))
 from common import *
 a = parse_args()
 from hz import *
+import hz as _hz
+_hz.DECOY[0] = False      # this harness snapshots cache / object state around calls: the harness's own decoy reads would show in it
 from coqeval import coq_eval, parse_value, zlit, CoqEvalError
 import seismic_zfp
 from seismic_zfp.loader import SgzLoader2d, SgzLoader3d
